@@ -12,11 +12,15 @@ UNKNOWN_NS = '/nobody'
 
 
 class Model:
-    def __init__(self, is_async, T, rooms, sidroom, seed):
+    def __init__(self, is_async, T, rooms, sidroom, seed, typed=False):
         self.is_async = is_async
         self.T = T
         names = common.rotate(['lobby', 'r-2', '42', 'chat/room', 'Zimmer',
                                'a,b'], seed)
+        if typed:
+            # room names of different types that print alike
+            names = common.rotate([[7, '7'], [True, 'True'], [1.5, '1.5']],
+                                  seed)[0]
         self.rooms = names[:rooms]
         self.sidroom = sidroom
 
@@ -255,13 +259,15 @@ e1.register('c03', factory)
 def run(tier, seed, result):
     if tier == 'quick':
         cfgs = [dict(T=2, rooms=2, sidroom=False, depth=60),
-                dict(T=2, rooms=1, sidroom=True, depth=60)]
+                dict(T=2, rooms=1, sidroom=True, depth=60),
+                dict(T=2, rooms=2, sidroom=False, depth=60, typed=True)]
     else:
         cfgs = [dict(T=3, rooms=2, sidroom=False, depth=60),
                 dict(T=2, rooms=2, sidroom=True, depth=60),
                 dict(T=3, rooms=1, sidroom=True, depth=9),
                 # the small scopes again, with the "every transport is lost"
                 # look-ahead as part of the state identity
+                dict(T=2, rooms=2, sidroom=False, depth=60, typed=True),
                 dict(T=2, rooms=2, sidroom=False, depth=60, fut=True),
                 dict(T=2, rooms=1, sidroom=True, depth=60, fut=True)]
     closure = True
